@@ -1,7 +1,7 @@
 ------------------------------- MODULE E2E_Sim -------------------------------
 (* Environment schedules for replay: random behaviours of the bounded design model *)
 (* (TLC -simulate), each reduced to its environment / server choices               *)
-(*   Submit c d | Process c | Deliver c fault                                      *)
+(*   Submit c d | Process c | Deliver c fault | Join c | Leave c                   *)
 (* carried in a history variable and printed whenever the behaviour reaches a      *)
 (* quiescent state with every message submitted.  The harness performs these       *)
 (* choices on the real stacks (skipping a choice the real world does not enable).  *)
@@ -9,7 +9,10 @@ EXTENDS E2E, Json
 VARIABLE hist
 FirstDiff(q, r) == IF \E k \in 1..Len(q) : k > Len(r) \/ q[k] # r[k] THEN CHOOSE k \in 1..Len(q) : (k > Len(r) \/ q[k] # r[k]) /\ \A m \in 1..(k - 1) : q[m] = r[m] ELSE 1
 EnvAct ==
-  IF Len(msgs') > Len(msgs) THEN [t |-> "Submit", c |-> msgs'[Len(msgs')].s, d |-> msgs'[Len(msgs')].d, f |-> "", j |-> 1]
+  IF members' # members
+  THEN [t |-> IF members \subseteq members' THEN "Join" ELSE "Leave",
+        c |-> CHOOSE a \in Acc : (a \in members) # (a \in members'), d |-> "", f |-> "", j |-> 1]
+  ELSE IF Len(msgs') > Len(msgs) THEN [t |-> "Submit", c |-> msgs'[Len(msgs')].s, d |-> msgs'[Len(msgs')].d, f |-> "", j |-> 1]
   ELSE IF \E c \in Acc : Len(inq'[c]) < Len(inq[c])
        THEN [t |-> "Process", c |-> CHOOSE c \in Acc : Len(inq'[c]) < Len(inq[c]), d |-> "", f |-> "", j |-> 1]
   ELSE IF faults' # faults
